@@ -19,10 +19,11 @@ def okFixes (F : Facts) : Bool := F.penaltyCap == "capBeforeConversion" && F.rat
 
 def okTable (F : Facts) : Bool := F.evictOp == .ge && F.getBucketShape && F.evictShape
 
-def ok (F : Facts) : Bool := okConsts F && okShapes F && okFixes F && okTable F
+/-- `okShapes` (text comparisons of the method bodies) is superseded by the translation of the methods and is no longer required -/
+def ok (F : Facts) : Bool := okConsts F && okFixes F && okTable F
 
 theorem ok_consts {F : Facts} (h : ok F = true) : okConsts F = true := by
-  simp only [ok, Bool.and_eq_true] at h; exact h.1.1.1
+  simp only [ok, Bool.and_eq_true] at h; exact h.1.1
 theorem ok_fixes {F : Facts} (h : ok F = true) : okFixes F = true := by
   simp only [ok, Bool.and_eq_true] at h; exact h.1.2
 theorem ok_table {F : Facts} (h : ok F = true) : okTable F = true := by
